@@ -43,11 +43,13 @@ type Result struct {
 
 var execCount int
 
-// recentWorlds is the recent history of whole-CLI runs of this process (kept for the crash-freedom
-// property only): the replay unit when a crash needs state left behind by earlier runs.
+// recentWorlds is the recent history of whole-CLI runs of this process: the replay unit when a
+// failure needs state left behind by earlier runs (a package-level cache, a pool, a flag table that
+// remembers). The library-level checks C01, C11 and C18 keep histories of their own kind.
 var (
 	recentWorlds []World
-	keepWorlds   = os.Getenv("HRSIM_PROP") == "C08" && os.Getenv("HRSIM_REPLAY") == ""
+	keepWorlds   = cliProps[os.Getenv("HRSIM_PROP")] && os.Getenv("HRSIM_REPLAY") == ""
+	cliProps     = map[string]bool{"C05": true, "C06": true, "C08": true, "C09": true, "C10": true, "C12": true, "C16": true, "C17": true}
 )
 
 // runningSince is the wall-clock start (unix nanoseconds) of the piece of the program under test that
@@ -83,9 +85,11 @@ func startWatchdog(limit time.Duration) {
 // goSched: the instrumenter found goroutines (go func(){...}) in the code under test outside the
 // channel parser. Then every whole-CLI run happens inside a synctest bubble under the cooperative
 // scheduler, so that the order in which those goroutines run is the world's, not the host's.
-var goSched = goSitesOutsideParser(os.Getenv("HRSIM_INSTR"))
+var goSched = goSitesIn(os.Getenv("HRSIM_INSTR"), func(pos string) bool {
+	return !strings.HasPrefix(pos, "parser/parser.go:") && !strings.Contains(pos, "/hrapp/")
+})
 
-func goSitesOutsideParser(path string) bool {
+func goSitesIn(path string, where func(pos string) bool) bool {
 	if path == "" {
 		return false
 	}
@@ -100,11 +104,66 @@ func goSitesOutsideParser(path string) bool {
 		return false
 	}
 	for _, s := range rep.Rewritten {
-		if s.Rule == "R7" && s.What == "go func" && !strings.HasPrefix(s.Pos, "parser/parser.go:") && !strings.Contains(s.Pos, "/hrapp/") {
+		if s.Rule == "R7" && s.What == "go func" && where(s.Pos) {
 			return true
 		}
 	}
 	return false
+}
+
+// libSched: the library itself (not only the commands) starts goroutines; then the library-level
+// checks run every call under the cooperative scheduler too.
+var libSched = goSitesIn(os.Getenv("HRSIM_INSTR"), func(pos string) bool {
+	return !strings.HasPrefix(pos, "cmd/") && !strings.HasPrefix(pos, "parser/parser.go:")
+})
+
+// underScheduler runs f in a goroutine inside a synctest bubble under the seeded cooperative scheduler.
+// It returns "" when f has returned, and a description of the hang when f has not returned although no
+// goroutine can make progress any more (or none of them ever stops spinning).
+func underScheduler(plan []int, f func()) (hang string) {
+	finished := false
+	deadlock := ""
+	func() {
+		defer func() {
+			if r := recover(); r != nil {
+				deadlock = fmt.Sprint(r)
+			}
+		}()
+		synctest.Test(curT, func(t *testing.T) {
+			sch := newCoop(plan)
+			sch.install()
+			defer sch.uninstall()
+			done := make(chan struct{})
+			go func() { f(); finished = true; close(done) }()
+			idle := int64(0)
+			// (the step bound ends a run in which some goroutine spins politely for ever)
+			for steps := 0; idle < 1<<42 && steps < 2000000; steps++ {
+				synctest.Wait()
+				select {
+				case <-done:
+					return
+				default:
+				}
+				if g := sch.take(sch.next()); g != nil {
+					idle = 0
+					close(g.ch)
+					continue
+				}
+				d := int64(1024)
+				if idle > 0 {
+					d = idle
+				}
+				idle += d
+				time.Sleep(time.Duration(d))
+			}
+		})
+	}()
+	verifsim.SetYieldHook(nil)
+	verifsim.SetSelectHook(nil)
+	if !finished {
+		return "hang: the call did not return and no goroutine can make progress (" + deadlock + ")"
+	}
+	return ""
 }
 
 // Exec runs the real application on world w: directly, or - when the code under test starts
@@ -129,44 +188,7 @@ func Exec(w World) *Result {
 		plan[i] = int((h >> (uint(i) * 5)) & 7)
 	}
 	var res *Result
-	deadlock := ""
-	func() {
-		defer func() {
-			if r := recover(); r != nil {
-				deadlock = fmt.Sprint(r)
-			}
-		}()
-		synctest.Test(curT, func(t *testing.T) {
-			sch := newCoop(plan)
-			sch.install()
-			defer sch.uninstall()
-			done := make(chan struct{})
-			go func() { res = execPlain(w); close(done) }()
-			idle := int64(0)
-			// (the step bound ends a command in which some goroutine spins politely for ever)
-			for steps := 0; idle < 1<<42 && steps < 2000000; steps++ {
-				synctest.Wait()
-				select {
-				case <-done:
-					return
-				default:
-				}
-				if g := sch.take(sch.next()); g != nil {
-					idle = 0
-					close(g.ch)
-					continue
-				}
-				d := int64(1024)
-				if idle > 0 {
-					d = idle
-				}
-				idle += d
-				time.Sleep(time.Duration(d))
-			}
-		})
-	}()
-	verifsim.SetYieldHook(nil)
-	verifsim.SetSelectHook(nil)
+	deadlock := underScheduler(plan, func() { res = execPlain(w) })
 	if res == nil {
 		// the command never returned although nothing can move any more
 		trace := "hang:no-world-installed"
@@ -174,7 +196,7 @@ func Exec(w World) *Result {
 			trace = st.TraceHash()
 			st.Uninstall()
 		}
-		res = &Result{ExitCode: -1, Failed: true, Trace: trace, Panic: "hang: the command did not return and no goroutine can make progress (" + deadlock + ")"}
+		res = &Result{ExitCode: -1, Failed: true, Trace: trace, Panic: deadlock}
 	}
 	return res
 }
